@@ -1,20 +1,35 @@
-# /verif/Makefile — builds the Coq development (full .vo build) and the extracted oracle.
+# /verif/Makefile — builds the Coq development (full .vo build) and the extracted oracles.
 COQDIR := coq
 EXDIR  := extract
-.PHONY: all coq oracle clean facts
+ORACLES := $(patsubst $(EXDIR)/%/Extract.v,%,$(wildcard $(EXDIR)/*/Extract.v))
+.PHONY: all coq oracles clean facts project FORCE
+FORCE:
 
-all: facts coq oracle
+all: facts coq oracles
 
 facts:
 	python3 tools/gen_facts.py
 
-coq: facts
-	cd $(COQDIR) && coq_makefile -f _CoqProject -o Makefile.coq >/dev/null && $(MAKE) -f Makefile.coq -j16
+# _CoqProject is regenerated from the .v files present (coqdep orders them)
+project:
+	@cd $(COQDIR) && { echo "-Q . MV"; \
+	  echo "-arg -w -arg -notation-overridden,-deprecated-hint-without-locality,-deprecated-instance-without-locality,-deprecated-hint-rewrite-without-locality"; \
+	  ls *.v gen/*.v | sort; } > _CoqProject.new && \
+	  { cmp -s _CoqProject.new _CoqProject || mv _CoqProject.new _CoqProject; rm -f _CoqProject.new; } && \
+	  { [ Makefile.coq -nt _CoqProject ] || coq_makefile -f _CoqProject -o Makefile.coq >/dev/null; }
 
-oracle: coq
-	cd $(EXDIR) && coqc -Q ../$(COQDIR) MV Extract.v >/dev/null && \
-	ocamlfind ocamlopt -w -a -package unix -linkpkg -o oracle model.mli model.ml conv.ml stubs.c driver.ml -cclib -lgcrypt -cclib -lz -cclib -lbz2
+coq: facts project
+	cd $(COQDIR) && $(MAKE) -f Makefile.coq -j16
+
+oracles: $(addprefix oracle-,$(ORACLES))
+
+# one self-contained oracle per model group: extract/<g>/Extract.v + driver.ml (+ shared conv.ml, stubs.c)
+oracle-%: project FORCE
+	cd $(COQDIR) && $(MAKE) -f Makefile.coq -j16 $$(sed -n 's/^(\* deps: \(.*\) \*)$$/\1/p' ../$(EXDIR)/$*/Extract.v)
+	cd $(EXDIR)/$* && coqc -Q ../../$(COQDIR) MV Extract.v >/dev/null && \
+	cp ../conv.ml conv.ml && \
+	ocamlfind ocamlopt -w -a -package unix -linkpkg -o oracle model.mli model.ml conv.ml ../stubs.c driver.ml -cclib -lgcrypt -cclib -lz -cclib -lbz2
 
 clean:
 	cd $(COQDIR) && rm -f *.vo *.vok *.vos *.glob .*.aux gen/*.vo gen/*.glob gen/.*.aux Makefile.coq Makefile.coq.conf .Makefile.coq.d .lia.cache
-	cd $(EXDIR) && rm -f model.ml model.mli *.cm* *.o oracle *.vo *.glob .*.aux
+	rm -f $(EXDIR)/*/model.ml $(EXDIR)/*/model.mli $(EXDIR)/*/*.cm* $(EXDIR)/*/*.o $(EXDIR)/*/oracle $(EXDIR)/*/*.vo $(EXDIR)/*/*.glob $(EXDIR)/*/.*.aux $(EXDIR)/*/conv.ml $(EXDIR)/*.o
